@@ -798,9 +798,11 @@ def run(ctx, args):
     n_scripts += len(jobs)
     n_lines += sum(len(j[1]) for j in jobs)
 
-    # 4. end-to-end route (thorough tier, or VERIF_C10_E2E=1)
-    if (not quick and os.environ.get("VERIF_C10_E2E") != "0") or os.environ.get("VERIF_C10_E2E") == "1":
-        e2e_part(ctx)
+    # 4. end-to-end route: quick tier -O0 only (the stall / loss classes are fixed and must stay fixed),
+    #    thorough tier -O0 and -O2; VERIF_C10_E2E=0 switches it off, =1 forces both levels
+    e2e_env = os.environ.get("VERIF_C10_E2E")
+    if e2e_env != "0":
+        e2e_part(ctx, ("-O0",) if (quick and e2e_env != "1") else ("-O0", "-O2"))
 
     # verdict on the correspondence
     if mismatches:
@@ -847,7 +849,7 @@ def run_capture_stderr(path, timeout, tmpdir):
         return f.read().decode("utf-8", "replace"), rc
 
 
-def e2e_part(ctx):
+def e2e_part(ctx, opts=("-O0", "-O2")):
     """llgo-compiled multi-goroutine programs with schedule-independent results, at -O0 and -O2, every run under a
     timeout (a hang is an observation); expected output = the reference Go toolchain's output of the same program."""
     from vlib import e2e
@@ -863,7 +865,7 @@ def e2e_part(ctx):
     cut = expected.index("begin sendThenClose")
     e2e.build_llgo(ctx)
     obs = {}
-    for opt in ("-O0", "-O2"):
+    for opt in opts:
         out = os.path.join(d, "prog%s.bin" % opt)
         p = e2e.llgo_build(ctx, d, out, opt=opt)
         if p.returncode != 0:
